@@ -215,6 +215,49 @@ func numOfKind(kind string, f float64) (stick.Value, error) {
 
 func bigOfKind(kind, which string) (stick.Value, error) {
 	max := which == "max"
+	// an integer written out, carried by an integer kind (also a defined type or a uintptr): big:serial:9007199254740993
+	if which != "max" && which != "min" && kind != "float32" && kind != "float64" {
+		if strings.HasPrefix(kind, "u") {
+			n, err := strconv.ParseUint(which, 10, 64)
+			if err != nil {
+				return nil, err
+			}
+			switch kind {
+			case "uint64":
+				return n, nil
+			case "uint":
+				return uint(n), nil
+			case "uintptr":
+				return uintptr(n), nil
+			}
+		} else {
+			n, err := strconv.ParseInt(which, 10, 64)
+			if err != nil {
+				return nil, err
+			}
+			switch kind {
+			case "int64":
+				return n, nil
+			case "int":
+				return int(n), nil
+			case "serial":
+				return serial(n), nil
+			}
+		}
+		return nil, fmt.Errorf("no big value for %q", kind)
+	}
+	switch kind {
+	case "serial":
+		if max {
+			return serial(math.MaxInt64), nil
+		}
+		return serial(math.MinInt64), nil
+	case "uintptr":
+		if max {
+			return uintptr(math.MaxUint64), nil
+		}
+		return uintptr(0), nil
+	}
 	switch kind {
 	case "int64":
 		if max {
